@@ -16,6 +16,7 @@
 //! Implements the Roughenough server functionality.
 //!
 
+use std::io;
 use std::io::ErrorKind;
 use std::io::Write;
 use std::net::{Shutdown, SocketAddr};
@@ -33,6 +34,8 @@ use crate::version::Version;
 use mio::net::{TcpListener, UdpSocket};
 use mio::{Events, Poll, PollOpt, Ready, Token};
 use mio_extras::timer::Timer;
+use net2::unix::UnixTcpBuilderExt;
+use net2::TcpBuilder;
 use rand::{thread_rng, RngCore};
 
 // mio event registrations
@@ -102,7 +105,7 @@ impl Server {
                 .parse()
                 .unwrap();
 
-            let tcp_listener = TcpListener::bind(&hc_sock_addr)
+            let tcp_listener = Self::bind_health_listener(&hc_sock_addr)
                 .expect("failed to bind TCP listener for health check");
 
             poll.register(
@@ -156,6 +159,24 @@ impl Server {
             #[cfg(feature = "fuzzing")]
             fake_client_socket: UdpSocket::bind(&"127.0.0.1:0".parse().unwrap()).unwrap(),
         }
+    }
+
+    // Every worker thread runs its own `Server` and therefore binds its own listener on the
+    // health check port; SO_REUSEPORT (as for the UDP socket) lets them share it.
+    fn bind_health_listener(addr: &SocketAddr) -> io::Result<TcpListener> {
+        let builder = if addr.is_ipv4() {
+            TcpBuilder::new_v4()?
+        } else {
+            TcpBuilder::new_v6()?
+        };
+
+        let listener = builder
+            .reuse_address(true)?
+            .reuse_port(true)?
+            .bind(addr)?
+            .listen(1024)?;
+
+        TcpListener::from_std(listener)
     }
 
     /// Returns a reference to the server's long-term public key
